@@ -18,7 +18,8 @@ Schedules (``cfg['part']``):
                at drawn points; Signer / SessionContext / PreparedPoint objects
                built on one arm and used on the other;
 - ``threads``: (c) the call in one simulated thread while another flips the
-               switch at a pre-emption point inside it.
+               switch at a pre-emption point inside it (each flip is held back
+               until a drawn step of the run, 1-3 interleavings per run).
 ``cfg['family']`` (optional, e.g. ``"silent"``) keeps one generator of the catalogue.
 
 Faults / perturbations: backend-flip, backend-flip-concurrent, cache-clear,
@@ -64,7 +65,6 @@ PENDING = {
     "dsa.sign_/hybrid-key",
     "dsa.sign/hybrid-key",
     "dh.diffie_hellman/point-infinity",
-    "dh.diffie_hellman/point-infinity-alias",
 }
 # inputs outside the documented caller contract: the arms are probed, not judged
 PROBE_ONLY = {"silent_payments.scan_transaction_outputs/odd-y-taproot-input-key"}
@@ -879,48 +879,75 @@ def _history(ctx: Ctx) -> None:
         )
 
 
+class _Gate:
+    """What a simulated thread blocks on until the run has made ``at`` steps (or the caller
+    is done): the scheduler reads ``owner`` to decide whether the thread is runnable."""
+
+    def __init__(self, sched: Any, at: int, state: dict[str, bool]) -> None:
+        self.sched, self.at, self.state = sched, at, state
+
+    @property
+    def owner(self) -> str | None:
+        return None if self.sched.steps >= self.at or self.state["done"] else "gate"
+
+
 def _threads(ctx: Ctx) -> None:
-    from btcsim.core.threads import SimThreads, count_steps  # noqa: PLC0415
+    from btcsim.core.threads import count_steps  # noqa: PLC0415
 
     ch = ctx.ch
     ops = judged_ops(ctx, 1 + ch.draw(3, "nops"))
     if not ops:
         return
-    arm0 = bool(ch.draw(2, "threads.arm0"))
     st.set_backend(bool(ch.draw(2, "threads.born")))
     objs = [build(op) if op.make is not None else None for op, _ in ops]
-    st.set_backend(arm0)
-    est = sum(count_steps(lambda op=op, obj=obj: observe(op, obj), dedupe="op")[1] for (op, _), obj in zip(ops, objs))
-    st.set_backend(arm0)
+    dedupe = ch.weighted([("op", 3), ("frame", 1)], "dedupe")
+    est: dict[bool, int] = {}
+    for _ in range(1 + ch.draw(3, "rounds")):
+        arm0 = bool(ch.draw(2, "threads.arm0"))
+        st.set_backend(arm0)
+        if arm0 not in est:
+            est[arm0] = sum(count_steps(lambda op=op, obj=obj: observe(op, obj), dedupe=dedupe)[1] for (op, _), obj in zip(ops, objs))
+            st.set_backend(arm0)
+        _schedule(ctx, ops, objs, dedupe, max(est[arm0], 4))
+
+
+def _schedule(ctx: Ctx, ops: list[tuple[Op, Obs]], objs: list[Any], dedupe: str, est: int) -> None:
+    """One seeded interleaving: the caller makes its calls, the flipper moves the switch."""
+    from btcsim.core.threads import SimThreads  # noqa: PLC0415
+
+    ch = ctx.ch
     kind = ch.weighted([("pct", 6), ("unif", 3)], "strategy")
     strategy: dict[str, Any] = {"kind": kind, "d": 1 + ch.draw(3, "pct.d")} if kind == "pct" else {"kind": kind, "p": ch.pick([(1, 50), (1, 10), (3, 10)], "p")}
-    sched = SimThreads(ctx, strategy, dedupe=ch.weighted([("op", 3), ("frame", 1)], "dedupe"), max_steps=int(ctx.cfg.get("max_steps", 200000)))
+    sched = SimThreads(ctx, strategy, dedupe=dedupe, max_steps=int(ctx.cfg.get("max_steps", 200000)))
     results: list[Obs] = []
-    inside = {"op": False}
+    state = {"in-call": False, "done": False}
 
     def caller() -> None:
         for (op, _), obj in zip(ops, objs):
             sched.new_op()
-            inside["op"] = True
+            state["in-call"] = True
             results.append(observe(op, obj))
-            inside["op"] = False
+            state["in-call"] = False
+        state["done"] = True
 
-    n_flips = ch.pick([1, 1, 2, 3], "nflips")
+    # each flip waits for a drawn step of the run: with the higher priority the flipper pre-empts the caller exactly there
+    flip_at = sorted(ch.draw(est + 1, "flip.at") for _ in range(ch.pick([1, 1, 2, 3], "nflips")))
 
     def flipper() -> None:
-        for _ in range(n_flips):
-            sched.yield_point("flip")
+        for at in flip_at:
+            if not state["done"]:
+                sched.block_current(_Gate(sched, at, state))
             st.set_backend(not st.backend())
             ctx.fault("backend-flip-concurrent")
-            if inside["op"]:
+            if state["in-call"]:
                 ctx.probe("flip-inside-call")
 
     sched.spawn("caller", caller)
     sched.spawn("flipper", flipper)
-    for status, exc in sched.run(est_steps=max(est, 4)).values():
+    for status, exc in sched.run(est_steps=est).values():
         if status == "exc":
             raise exc  # a simulated thread crashed outside observe(): a harness error
-    ctx.log("threads-done", f"steps={sched.steps}", f"switches={ctx.switches}", kind)
+    ctx.log("threads-done", f"steps={sched.steps}", f"switches={ctx.switches}", kind, f"flip_at={flip_at}")
     ctx.trace.extend(sched.switch_trace)
     ctx.sample["switch_trace"] = sched.switch_trace[:20]
     if sched.capped or sched.deadlock:
@@ -954,8 +981,9 @@ CHECKS = {
         "rule": (
             "one evaluation = one seeded run: 3-8 dual-path operations drawn from the catalogue (valid arguments, or exactly one argument "
             "from a hostile input class) each executed on both arms (twin), or 2-6 such operations re-called along a history of 6-25 "
-            "steps with backend flips, cache clears and objects built on the other arm, or 1-3 operations called in a simulated thread "
-            "while a second thread flips the switch at seeded pre-emption points. distinct = distinct hash of the (event, fault) "
+            "steps with backend flips, cache clears and objects built on the other arm, or 1-3 operations called in a simulated thread over "
+            "1-3 seeded interleavings (PCT / uniform) while a second thread flips the switch 1-3 times, each flip released at a drawn "
+            "step of the run. distinct = distinct hash of the (event, fault) "
             "sequence incl. the thread switch trace; non-trivial = at least one flip / cache clear / cross-arm object fired or >= 2 "
             "context switches. A site is <api>/<input class>."
         ),
